@@ -200,7 +200,7 @@ func c16Gen(c *vfCtx, emit func(c16Case)) {
 				}
 			}
 		}
-		for _, api := range []string{"json", "sjson", "yaml-flow", "yaml-block"} {
+		for _, api := range []string{"json", "sjson", "yaml-flow", "yaml-block", "yaml-multi"} {
 			for _, m := range masks {
 				for _, kind := range []string{"any", "type", "custom", "reuse"} {
 					if !c.thorough() && len(m) == 2 && (kind == "type" || api == "sjson") {
@@ -219,6 +219,9 @@ func c16Render(api string, d *vfJ) string {
 		return d.render(1, 0) + "\n"
 	case "yaml-block":
 		return d.yamlBlock(0)
+	case "yaml-multi":
+		// a stream of two documents of the same shape (the second one after a comment): a path addresses every document
+		return d.yamlBlock(0) + "---\n# second document\n" + d.yamlBlock(0)
 	}
 	return d.render(0, 0)
 }
